@@ -4,8 +4,10 @@
   the encoding); `written` is `(enc x).length`; `consumed` is what the decoder takes off the front
   of ANY stream that starts with the encoding (it leaves exactly the bytes that followed).
 -/
+import TdfModel.Wire
 import TdfProofs.Lemmas.RoundTrip
 import TdfProofs.Lemmas.Data2D
+import TdfProofs.Lemmas.Container
 namespace Tdf.C02
 
 theorem written_data3d (x : Data3D) (h : x.valid = true) : x.enc.length = x.size := Data3D.enc_length x h
@@ -59,6 +61,30 @@ theorem item_event (e : Event) (h : e.valid = true) : e.enc.length = e.size := E
 theorem runs_size_formula (k : Nat) (fs : List (Option Frame)) :
     sizeRuns k fs = 8 + ((runs fs).map (fun r => 8 + r.2.length * (4 * k))).sum := by
   simp [sizeRuns, foldl_add_eq]
+
+/-- all nine block kinds at once -/
+theorem written_any (b : Wire.AnyBlock) (h : b.valid = true) : b.enc.length = b.size := by
+  cases b with
+  | data3d x => exact written_data3d x h
+  | emg x => exact written_emg x h
+  | force3d x => exact written_force3d x h
+  | platdata x => exact written_platdata x h
+  | platcalib x => exact written_platcalib x h
+  | data2d x => exact written_data2d x h
+  | calib x => exact written_calib x h
+  | optical x => exact written_optical x h
+  | events x => exact written_events x h
+
+/-- what the container is handed for a modelled block: type code, format code, `nBytes`, `_write` output -/
+def argOf (typ : Nat) (b : Wire.AnyBlock) (cdate mdate : Int) : BlkArg :=
+  ⟨typ, b.fmt, b.size, some b.enc, cdate, mdate⟩
+
+/-- "the container uses the reported size to place every following block": for valid blocks the size
+    it is told is the size of what it writes — the honesty hypothesis of the container theorems (C03…C11)
+    is discharged by C02 -/
+theorem container_arg_honest (l : Lay) (typ : Nat) (b : Wire.AnyBlock) (cd md : Int)
+    (hv : b.valid = true) (ht : typ ≠ 0) (hfit : l.eod + b.size < 2147483648) : ArgOk l (argOf typ b cd md) :=
+  ⟨ht, fun pl hpl => by simp only [argOf, Option.some.injEq] at hpl; rw [← hpl]; exact written_any b hv, hfit⟩
 
 example : (⟨1000, 0, 3, [5], [⟨[97], [some [1], none, some [2]]⟩]⟩ : EMG).size = 306 := by decide
 
